@@ -61,10 +61,16 @@ def make_flow(kind, m):
         return list(range(-1, m - 1))
     if kind == "ctx":
         return [(i, {"i": i}) for i in range(-1, m - 1)]
+    if kind == "none":
+        # None is a value like any other (never an end marker): at every even index, also first
+        return [None if i % 2 else i for i in range(-1, m - 1)]
     raise ValueError(kind)
 
 
 FLOW_KINDS = ("bare", "ctx")
+# flows with None values are used for the shorter programs only (elements that compute with the data
+# raise the same TypeError under every driver, so such cases decide less)
+FLOW_KINDS_SHORT = ("bare", "ctx", "none")
 
 
 # ---------------------------------------------------------------------------------------------------
